@@ -178,7 +178,7 @@ class Gen:
                     p["t"] = min(self.nt - 1, tmax_hint + r.choice([0, 0, 1, 2, 3]))
             a.update({"ps": ps, "m": self.meas(0.8), "bad": 1 if r.random() < w.get("bad", 0.15) else 0})
         elif op == "remove":
-            a.update({"q": self.query(), "m": self.meas(0.7)})
+            a.update({"q": self.query(), "m": self.meas(0.55)})
             self.adapt(a, 0.6)
             self.negfield(a)
         elif op == "drop_measurement":
@@ -284,6 +284,52 @@ class Gen:
                     ops.append({"op": kind, "q": tq, "m": NONE})
             ops.append({"op": "all", "m": NONE, "sorted": 0})
             t += n + r.choice([0, 1])
+        return ops
+
+    def scan_remove_scenario(self):
+        """points of several measurements interleaved in time order (index valid), then a remove / update restricted to one
+        measurement whose query contains a negated field comparison (answered by a scan although the index is valid), then
+        reads on the OTHER measurements, directly and through handles"""
+        r = self.r
+        ops, t = [], r.randrange(0, 3)
+        n = r.choice([4, 5, 6, 7])
+        for i in range(n):
+            p = self.point(t)
+            p["m"] = i % r.choice([2, 3])
+            if p["fd"][0] == MISSING:
+                p["fd"][0] = r.randrange(NN)
+            ops.append({"op": "insert", "p": p, "m": NONE, "compact": 0})
+            t += r.choice([0, 1, 1])
+        for _ in range(r.choice([1, 2])):
+            m = r.randrange(2)
+            nf = {"k": "not", "a": {"k": "field", "key": 1, "key2": 0, "mf": 0, "op": r.choice(["eq", "lt", "ge"]), "v": r.randrange(NN), "tf": 0}}
+            a = {"op": r.choice(["remove", "remove", "update"]), "q": nf, "m": m}
+            if a["op"] == "update":
+                a.update({"u": self.update(), "fail": 0})
+            if r.random() < 0.5:
+                a["via"] = "handle"
+            ops.append(a)
+            for _ in range(r.choice([2, 3, 4])):
+                m2 = r.randrange(3)
+                kind = r.choice(["search", "get", "count", "get_timestamps", "get_tag_values", "get_field_values", "select", "len"])
+                q = self.atom()
+                b = {"op": kind, "m": m2}
+                if kind in ("search", "get", "count", "select"):
+                    b["q"] = q
+                if kind == "search":
+                    b["sorted"] = r.randrange(2)
+                if kind == "select":
+                    b.update({"keys": [{"k": "tag", "key": 1}, {"k": "time", "key": 0}], "scalar": 0})
+                if kind == "get_tag_values":
+                    b["keys"] = []
+                if kind == "get_field_values":
+                    b["key"] = r.randrange(1, self.nfk + 1)
+                if kind == "len" or r.random() < 0.5:
+                    b["via"] = "handle"
+                ops.append(b)
+            ops.append({"op": "insert", "p": self.point(t), "m": NONE, "compact": 0})
+            t += 1
+        ops.append({"op": "all", "m": NONE, "sorted": 0})
         return ops
 
     def battery(self, k=5):
